@@ -419,4 +419,143 @@ theorem resolveItems_single (F : Forest (List Char)) (src tgt : Pos) (ref : List
 @[simp] theorem mkEntry_target (t : Pos) (o : DepOpts) : (mkEntry t o).target = t := by
   unfold mkEntry; split <;> rfl
 
+/-! ### moving one edge from `precedes` to `depends` in a whole project -/
+
+/-- `st'` is `st` with one more entry `e` somewhere in `B`'s list -/
+def StoreRel (B : Pos) (e : DepEntry) (st st' : DepStore) : Prop :=
+  ∀ q, (getDeps st' q).Perm (if q = B then e :: getDeps st q else getDeps st q)
+
+theorem StoreRel.precedeOne {B : Pos} {e : DepEntry} {st st' : DepStore} (h : StoreRel B e st st')
+    (F : Forest (List Char)) (s : Pos) (it : DepItem)
+    (hno : ¬ (s = e.target ∧ resolveStr F s it.ref = some B)) :
+    StoreRel B e (precedeOne F st s it) (precedeOne F st' s it) := by
+  unfold SP.Resolve.precedeOne
+  cases hr : resolveStr F s it.ref with
+  | none => simpa using h
+  | some tgt =>
+    simp only []
+    have hany : (getDeps st' tgt).any (fun x => decide (x.target = s)) =
+        (getDeps st tgt).any (fun x => decide (x.target = s)) := by
+      rw [(h tgt).any_eq]
+      by_cases ht : tgt = B
+      · have : e.target ≠ s := fun e' => hno ⟨e'.symm, ht ▸ hr⟩
+        simp [ht, this]
+      · simp [ht]
+    rw [hany]
+    by_cases ha : (getDeps st tgt).any (fun x => decide (x.target = s)) = true
+    · simpa [ha] using h
+    · simp only [ha, Bool.false_eq_true, if_false]
+      intro q
+      rw [getDeps_extendDeps, getDeps_extendDeps]
+      by_cases hq : q = tgt
+      · subst hq
+        simp only [if_true]
+        have := (h q).append_right [mkEntry s it.opts]
+        by_cases hb : q = B
+        · simpa [hb] using this
+        · simpa [hb] using this
+      · simpa [hq] using h q
+
+theorem StoreRel.resolvePrecedes {B : Pos} {e : DepEntry} (F : Forest (List Char))
+    (pp : List (Pos × List DepItem))
+    (hno : ∀ pi ∈ pp, ∀ it ∈ pi.2, ¬ (pi.1 = e.target ∧ resolveStr F pi.1 it.ref = some B))
+    {st st' : DepStore} (h : StoreRel B e st st') :
+    StoreRel B e (resolvePrecedes F pp st) (resolvePrecedes F pp st') := by
+  unfold SP.Resolve.resolvePrecedes
+  induction pp generalizing st st' with
+  | nil => simpa using h
+  | cons pi rest ih =>
+    simp only [List.foldl_cons]
+    apply ih (fun pj hj => hno pj (List.mem_cons_of_mem _ hj))
+    have hpi := hno pi (List.mem_cons_self ..)
+    clear ih hno
+    generalize pi.2 = items at hpi
+    induction items generalizing st st' with
+    | nil => simpa using h
+    | cons it its ih2 =>
+      simp only [List.foldl_cons]
+      exact ih2 (h.precedeOne F pi.1 it (hpi it (List.mem_cons_self ..)))
+        (fun it' h' => hpi it' (List.mem_cons_of_mem _ h'))
+
+/-! ### reference strings: written out and parsed again -/
+
+theorem splitDots_ne_nil (s : List Char) : splitDots s ≠ [] := by
+  induction s with
+  | nil => simp [splitDots]
+  | cons c cs ih =>
+    simp only [splitDots]
+    split
+    · simp
+    · split
+      · simp
+      · simp
+
+theorem splitDots_append_dot (p rest : List Char) (hp : ∀ x ∈ p, x ≠ '.') :
+    splitDots (p ++ '.' :: rest) = p :: splitDots rest := by
+  induction p with
+  | nil => simp [splitDots]
+  | cons c cs ih =>
+    have hc : c ≠ '.' := hp c (by simp)
+    simp only [List.cons_append, splitDots, hc, if_false, ih (fun x hx => hp x (by simp [hx]))]
+
+theorem splitDots_no_dot (p : List Char) (hp : ∀ x ∈ p, x ≠ '.') : splitDots p = [p] := by
+  induction p with
+  | nil => simp [splitDots]
+  | cons c cs ih =>
+    have hc : c ≠ '.' := hp c (by simp)
+    simp only [splitDots, hc, if_false, ih (fun x hx => hp x (by simp [hx]))]
+
+theorem splitDots_renderPath (h : List Char) (t : List (List Char))
+    (hd : ∀ p ∈ h :: t, ∀ x ∈ p, x ≠ '.') : splitDots (renderPath (h :: t)) = h :: t := by
+  induction t generalizing h with
+  | nil => simpa [renderPath] using splitDots_no_dot h (hd h (by simp))
+  | cons q qs ih =>
+    simp only [renderPath]
+    rw [splitDots_append_dot h _ (hd h (by simp)), ih q (fun p hp => hd p (by simp [hp]))]
+
+theorem countBang_replicate (n : Nat) (rest : List Char) (hr : rest.head? ≠ some '!') :
+    countBang (List.replicate n '!' ++ rest) = (n, rest) := by
+  induction n with
+  | zero =>
+    simp only [List.replicate_zero, List.nil_append]
+    cases rest with
+    | nil => rfl
+    | cons c cs =>
+      have : c ≠ '!' := by simpa using hr
+      unfold countBang
+      split
+      · next heq => cases heq; exact absurd rfl this
+      · rfl
+  | succ n ih =>
+    simp only [List.replicate_succ, List.cons_append, countBang, ih]
+
+/-- a reference whose ids contain no dot, whose first id is non-empty and does not start with `!`,
+    is read back exactly as written -/
+theorem parseRef_renderRef (r : Ref (List Char)) (hd : ∀ p ∈ r.path, ∀ x ∈ p, x ≠ '.')
+    (hne : r.head ≠ []) (hb : r.head.head? ≠ some '!') : parseRef (renderRef r) = some r := by
+  obtain ⟨up, h, t⟩ := r
+  simp only [Ref.path] at hd hne hb ⊢
+  have hrp : (renderPath (h :: t)).head? ≠ some '!' := by
+    cases t with
+    | nil => simpa [renderPath] using hb
+    | cons q qs =>
+      simp only [renderPath]
+      cases h with
+      | nil => exact absurd rfl hne
+      | cons c cs => simpa using hb
+  have hne2 : (List.replicate up '!' ++ renderPath (h :: t)).isEmpty = false := by
+    have : renderPath (h :: t) ≠ [] := by
+      cases t with
+      | nil => simpa [renderPath] using hne
+      | cons q qs =>
+        simp only [renderPath]
+        cases h with
+        | nil => exact absurd rfl hne
+        | cons c cs => simp
+    cases hx : renderPath (h :: t) with
+    | nil => exact absurd hx this
+    | cons c cs => simp
+  simp only [parseRef, renderRef, Ref.path, hne2, Bool.false_eq_true, if_false,
+    countBang_replicate up _ hrp, splitDots_renderPath h t hd]
+
 end SP.Resolve
